@@ -258,7 +258,10 @@ func (k Keeper) UnjailValidator(ctx sdk.Ctx, addr sdk.Address) {
 	}
 	validator.Jailed = false
 	k.SetValidator(ctx, validator)
-	k.SetStakedValidator(ctx, validator)
+	// only a staked validator returns to the power index (an unstaking one stays out of it)
+	if validator.IsStaked() {
+		k.SetStakedValidator(ctx, validator)
+	}
 	logger := k.Logger(ctx)
 	logger.Info(fmt.Sprintf("validator %s unjailed", addr))
 }
